@@ -1,0 +1,20 @@
+//go:build verif
+
+package datastore
+
+import (
+	"context"
+
+	sdcpb "github.com/sdcio/sdc-protos/sdcpb"
+)
+
+// VerifOpenTxn is a read-only observer for the verification harness.
+func (d *Datastore) VerifOpenTxn() (id string, armed bool) {
+	return d.transactionManager.VerifOpen()
+}
+
+// VerifDeviationCycle runs exactly one deviation cycle towards the given streams
+// (the production ticker fires every 30s).
+func (d *Datastore) VerifDeviationCycle(ctx context.Context, dm map[string]sdcpb.DataServer_WatchDeviationsServer) {
+	d.runDeviationUpdate(ctx, dm)
+}
